@@ -17,7 +17,7 @@ EXPLANATION = "Instance-level certified equivalence between each automaton and t
 
 
 def generate(ctx):
-    n = 500 if ctx.tier == "quick" else 8000
+    n = 500 if ctx.tier == "quick" else 40000
     cases = []
     for i in range(n):
         names = ctx.rng.choice(["plain", "plain", "int"])
